@@ -202,6 +202,8 @@ func main() {
 		c.Rule = fmt.Sprintf("inputs: nbShards{1,2} x eligible patterns x waiting patterns x nodes{2,3} x new{0,2} x %d leaving patterns x seeds x balance/waitfix/cross flags x map insertion order (%d inputs); per input every execution with <= %d map loops taking a non-sorted key order (all permutations of <=4 keys per deviating loop); non-trivial = deviating executions (a loop over a map with >=2 keys ran in non-default order). Phase C (history.go): for the inputs with default insertion order, a shuffler whose epoch-dependent switches all change at different epochs (waiting-list fix 1, MaxNodesChange 2 and 4, balanced waiting lists 3): every target epoch 0..5 after every history of <= %d earlier UpdateNodeLists calls with epochs in 0..5 must give the result of a fresh instance; non-trivial there = inputs whose fresh result differs between epochs", len(leavingPatterns), len(ins), bound, c.Pick(2, 3))
 		c.Bound = fmt.Sprintf("map-order deviation bound %d; shuffler call histories of length <= %d over epochs 0..5", bound, c.Pick(2, 3))
 		c.Assumptions = []string{"maps with more than 4 keys would iterate sorted (none occur: <=3 shard keys)", "input validators have distinct public keys"}
+		// the cheap phase first: the map-order search below uses up the thorough tier's time box
+		phaseHistory(c, ins, c.Pick(2, 3))
 		mc.Par(len(ins), func(i int) {
 			in := ins[i]
 			if c.Expired() {
@@ -249,7 +251,6 @@ func main() {
 			})
 		})
 		phaseCoordinator(c, bound)
-		phaseHistory(c, ins, c.Pick(2, 3))
 		st := map[string]int64{}
 		for k, v := range vmap.Sites {
 			st[k] = v
